@@ -233,6 +233,21 @@ func (g *mixGen) genBlock(h uint64) []pb.Transaction {
 		x := r.Intn(100)
 		switch {
 		case x < 14: // transfers
+			if r.Intn(5) == 0 {
+				// a transfer that covers the amount but not the fee: it runs, then fails at the fee, and the sender's
+				// whole balance is what the admins get
+				tight := harness.DetKey("tight-sender")
+				bal := new(big.Int).Set(w.R.ViewL.GetBalance(tight.Addr))
+				w.R.ViewL.Clear()
+				if bal.Cmp(big.NewInt(5000)) < 0 {
+					txs = append(txs, w.Transfer(harness.User(r.Intn(3)), tight.Addr, "900000000"))
+					g.note("tight-sender-funded")
+				} else {
+					txs = append(txs, w.Transfer(tight, harness.User(3).Addr, new(big.Int).Sub(bal, big.NewInt(int64(1+r.Intn(1000)))).String()))
+					g.note("transfer-amount-covered-fee-not")
+				}
+				break
+			}
 			k := harness.User(r.Intn(4))
 			amt := []string{"0", "1", "1000", "123456789", "999999999999999999999999999", "abc"}[r.Intn(6)]
 			txs = append(txs, w.Transfer(k, harness.User(r.Intn(4)).Addr, amt))
